@@ -40,6 +40,11 @@ func runC02(c *an.Ctx) {
 	c.As(map[string]string{"R12d": "R02p"}, func() { r12d(c) })
 	c.As(map[string]string{"R11b": "R02q", "R11d": "R02r"}, func() { r11d(c, r11b(c)) })
 	r02t(c)
+	// round 8
+	r02u(c)
+	r02v(c)
+	c.As(map[string]string{"R12o": "R02w"}, func() { r12o(c) })
+	c.As(map[string]string{"R04g": "R02x"}, func() { r04g(c) })
 }
 
 // transitionDos returns the `do` methods of all implementers of environment.Transition.
